@@ -39,6 +39,8 @@ ANNOT = os.path.join(core.CACHE, "c17-annot")
 DRV_WRAPPER = os.path.join(core.VERIF, "tools", "c17_drv.py")
 LAKE_TARGETS = ["SharkVerif.Props.C17", "drv_c17"]
 PROP_MODULES = ["SharkVerif.Props.C17"]
+# the searches are sequential; OpenMP worker threads of SimpleNearestNeighbors would only spin
+ENV = {"OMP_NUM_THREADS": "1", "OMP_WAIT_POLICY": "passive"}
 
 
 # --------------------------------------------------------------------------- generators
@@ -191,13 +193,13 @@ def correspond(ctx, name, cases, hcmd, dcmd):
             seen.add(k); uniq.append(c)
     cases = uniq
     all_ops = [l for c in cases for l in c]
-    big = core.run_case(ctx, hcmd, dcmd, all_ops, timeout=1800)
+    big = core.run_case(ctx, hcmd, dcmd, all_ops, env=ENV, timeout=1800)
     if big.ok:
         ctx.count("traces_validated_against_impl", len(cases)); ctx.count("ops_compared", len(all_ops))
         ctx.log(f"{name}: {len(cases)} cases / {len(all_ops)} ops agree")
         return 0
     if big.crash or len(big.impl) != len(all_ops) or len(big.model) != len(all_ops):
-        return core.correspond(ctx, name, cases, hcmd, dcmd, classify, keep_prefix=3)
+        return core.correspond(ctx, name, cases, hcmd, dcmd, classify, env=ENV, keep_prefix=3)
     rest, pos, nknown = [], 0, 0
     for c in cases:
         impl, model = big.impl[pos:pos + len(c)], big.model[pos:pos + len(c)]
@@ -224,7 +226,9 @@ def correspond(ctx, name, cases, hcmd, dcmd):
     ctx.count("traces_validated_against_impl", len(cases) - len(rest)); ctx.count("ops_compared", len(all_ops))
     ctx.log(f"{name}: {len(cases)} cases, {nknown} hit only known findings, {len(rest)} need isolation")
     if rest:
-        return core.correspond(ctx, name + "[isolate]", rest, hcmd, dcmd, classify, keep_prefix=3)
+        # isolation + shrinking is expensive: a dozen failing cases are enough to name the failure
+        ctx.cov["failing_cases_" + name] = len(rest)
+        return core.correspond(ctx, name + "[isolate]", rest[:12], hcmd, dcmd, classify, env=ENV, keep_prefix=3)
     return 0
 
 
@@ -268,27 +272,27 @@ def run(ctx):
         correspond(ctx, "K-C17[corpus]", [c for _, c in corpus], hcmd, dcmd)
 
     # does LCTree/KHCTree survive duplicate points on this tree? (finding L1)
-    res = [core.run_case(ctx, hcmd, dcmd, c) for c in L1_PROBE]
+    res = [core.run_case(ctx, hcmd, dcmd, c, env=ENV) for c in L1_PROBE]
     lc_dups_ok = all(x.ok for x in res)
     ctx.cov["lc_khc_duplicates_generated"] = lc_dups_ok
     if not lc_dups_ok:
-        core.correspond(ctx, "K-C17[L1-probe]", L1_PROBE, hcmd, dcmd, classify, keep_prefix=3)
+        core.correspond(ctx, "K-C17[L1-probe]", L1_PROBE, hcmd, dcmd, classify, env=ENV, keep_prefix=3)
 
     # does IterativeNNQuery survive a tree whose root is a leaf? (finding R1)
-    res = [core.run_case(ctx, hcmd, dcmd, c) for c in R1_PROBE]
+    res = [core.run_case(ctx, hcmd, dcmd, c, env=ENV) for c in R1_PROBE]
     root_leaf_ok = not any(x.crash for x in res)
     ctx.cov["root_leaf_trees_generated"] = root_leaf_ok
     if not all(x.ok for x in res):
         correspond(ctx, "K-C17[R1-probe]", R1_PROBE, hcmd, dcmd) if root_leaf_ok else \
-            core.correspond(ctx, "K-C17[R1-probe]", R1_PROBE, hcmd, dcmd, classify, keep_prefix=3)
+            core.correspond(ctx, "K-C17[R1-probe]", R1_PROBE, hcmd, dcmd, classify, env=ENV, keep_prefix=3)
     global ROOT_LEAF_OK
     ROOT_LEAF_OK = root_leaf_ok
 
-    nA, nB, nC = (220, 60, 120) if ctx.quick else (2500, 600, 1200)
+    nA, nB, nC = (2000, 500, 1000) if ctx.quick else (16000, 4000, 8000)
     groups = [
-        ("kd,bucket=1", [gen_case(r, ctx, ["kd"], lc_dups_ok, not ctx.quick, [1, 1, 1, 0]) for _ in range(nA)]),
-        ("kd,bucket>1", [gen_case(r, ctx, ["kd"], lc_dups_ok, not ctx.quick, [2, 3, 4]) for _ in range(nB)]),
-        ("lc+khc", [gen_case(r, ctx, ["lc", "khc"], lc_dups_ok, not ctx.quick, [1, 1, 0, 2, 3, 4]) for _ in range(nC)]),
+        ("kd,bucket=1", [gen_case(r, ctx, ["kd"], lc_dups_ok, True, [1, 1, 1, 0]) for _ in range(nA)]),
+        ("kd,bucket>1", [gen_case(r, ctx, ["kd"], lc_dups_ok, True, [2, 3, 4]) for _ in range(nB)]),
+        ("lc+khc", [gen_case(r, ctx, ["lc", "khc"], lc_dups_ok, True, [1, 1, 0, 2, 3, 4]) for _ in range(nC)]),
     ]
     allcases = [c for _, cs in groups for c in cs]
     ctx.cov["evaluations"] = len(allcases) + len(corpus)
@@ -306,7 +310,7 @@ def run(ctx):
 def replay(ctx, rep):
     exe = build(ctx); drv = ctx.driver("drv_c17")
     os.makedirs(ANNOT, exist_ok=True)
-    res = core.run_case(ctx, [exe, ANNOT], [sys.executable, DRV_WRAPPER, drv, ANNOT], rep["ops"])
+    res = core.run_case(ctx, [exe, ANNOT], [sys.executable, DRV_WRAPPER, drv, ANNOT], rep["ops"], env=ENV)
     print("\n".join(f"impl : {a}\nmodel: {b}" for a, b in zip(res.impl, res.model)))
     print("stderr:", res.stderr[-2000:])
     print("OK" if res.ok else "FAILS")
